@@ -246,7 +246,9 @@ func (group *Group) broadcastByRtmpMsg(msg base.RtmpMsg) {
 
 	// # rtsp
 	if group.rtmp2RtspRemuxer != nil {
+		group.feedingNonKeyVideoMsg = msg.Header.MsgTypeId == base.RtmpTypeIdVideo && !msg.IsVideoKeyNalu()
 		group.rtmp2RtspRemuxer.FeedRtmpMsg(msg)
+		group.feedingNonKeyVideoMsg = false
 	}
 
 	if group.customizeHookSessionContext != nil {
@@ -529,14 +531,21 @@ func (group *Group) feedRtpPacket(pkt rtprtcp.RtpPacket) {
 		}
 
 		if !boundaryChecked {
+			// only a video packet can start a GOP: the first byte of an audio payload is not a nalu header
+			isVideo := group.sdpCtx.IsVideoPayloadTypeOrigin(int(pkt.Header.PacketType))
 			switch group.sdpCtx.GetVideoPayloadTypeBase() {
 			case base.AvPacketPtAvc:
-				boundary = rtprtcp.IsAvcBoundary(pkt)
+				boundary = isVideo && rtprtcp.IsAvcBoundary(pkt)
 			case base.AvPacketPtHevc:
-				boundary = rtprtcp.IsHevcBoundary(pkt)
+				boundary = isVideo && rtprtcp.IsHevcBoundary(pkt)
 			default:
 				// 注意，不是avc和hevc时，直接发送
 				boundary = true
+			}
+			// parameter sets also travel with (or between) pictures that are not key frames: they only
+			// open the gate when they belong to a key frame
+			if group.feedingNonKeyVideoMsg {
+				boundary = false
 			}
 			boundaryChecked = true
 		}
